@@ -34,6 +34,9 @@ ROUTES = ['kwargs', 'kwargs_reversed', 'kwargs_shuffled', 'parse_dict_shuffled',
 CONTRIB = {t: v[2] for t, v in C.SCO21.items()}
 CONTRIB['x-sim-obs-a'] = ['alpha', 'beta']
 CONTRIB['x-sim-obs-b'] = ['name', 'meta']
+CONTRIB['x-sim-obs-c'] = ['seen_ms', 'seen_any', 'label']
+TS_POOL = ['2016-01-01T00:00:00Z', '2016-06-19T14:20:40.5Z', '2038-01-19T03:14:08.000001Z', '1970-01-01T00:00:00Z', '2016-01-01T00:00:00.123Z']
+TS_POOL_MS = [t for t in TS_POOL if t != '2038-01-19T03:14:08.000001Z']
 TYPES = sorted(CONTRIB)
 
 
@@ -61,8 +64,7 @@ def gen_item(rng, n):
     t = rng.choice(TYPES)
     c, nc = {}, {}
     ref = lambda typ: C.mkid(typ, 5000 + rng.randrange(50), 'c06')
-    ts = lambda: rng.choice(['2016-01-01T00:00:00Z', '2016-06-19T14:20:40.5Z', '2038-01-19T03:14:08.000001Z', '1970-01-01T00:00:00Z',
-                             '2016-01-01T00:00:00.123Z'])
+    ts = lambda: rng.choice(TS_POOL)
     some = lambda: rng.random() < 0.6
     if t == 'artifact':
         if some():
@@ -144,6 +146,15 @@ def gen_item(rng, n):
         if some() or not c:
             c['serial_number'] = '36:f7:d4:32:f4:ab:70:ea:%02d' % rng.randrange(99)
         nc['issuer'] = pick_str(rng)
+    elif t == 'x-sim-obs-c':
+        # the same instants as network-traffic.start etc., but under other precision settings (other canonical spelling)
+        if some():
+            c['seen_ms'] = rng.choice(TS_POOL_MS)
+        if some():
+            c['seen_any'] = rng.choice(TS_POOL)
+        if some() or not c:
+            c['label'] = pick_str(rng) or 'l'
+        nc['note'] = pick_str(rng)
     elif t == 'x-sim-obs-a':
         if some():
             c['alpha'] = pick_str(rng)
@@ -173,6 +184,9 @@ def expected_canonical(item):
                 else:
                     first = next(iter(v))
                     v = {first: v[first]}
+            if k == 'seen_ms':
+                from .. import tsparse
+                v = tsparse.fmt(tsparse.us_of(v), digits=3)      # millisecond precision, exactly three digits
             obj[k] = v
     return jcs.canonical(obj) if obj else None
 
@@ -232,7 +246,7 @@ class C06(Profile):
                 near = json.loads(json.dumps(it))
                 k = irng.choice(sorted(near['c']))
                 v = near['c'][k]
-                if k.endswith('_ref') or k in ('payload_bin', 'cpe', 'account_type', 'value', 'start', 'end', 'serial_number'):
+                if k.endswith('_ref') or k in ('payload_bin', 'cpe', 'account_type', 'value', 'start', 'end', 'serial_number', 'seen_ms', 'seen_any'):
                     near = None
                 elif isinstance(v, str):
                     near['c'][k] = v + 'x'
@@ -266,6 +280,14 @@ class C06(Profile):
         @s.v21.CustomObservable('x-sim-obs-b', [('name', StringProperty(required=True)), ('meta', DictionaryProperty(spec_version='2.1')),
                                                 ('note', StringProperty())], id_contrib_props=['name', 'meta'])
         class ObsB(object):
+            pass
+
+        from stix2.properties import TimestampProperty
+
+        @s.v21.CustomObservable('x-sim-obs-c', [('seen_ms', TimestampProperty(precision='millisecond')), ('seen_any', TimestampProperty()),
+                                                ('label', StringProperty()), ('note', StringProperty())],
+                                id_contrib_props=['seen_ms', 'seen_any', 'label'])
+        class ObsC(object):
             pass
         items = plan['items']
         seen = {}       # item index -> {id}
